@@ -533,9 +533,16 @@ class Monitor:
         RealChi, real_acc, real_move = B.Chi2Calculator, B.accept_metropolis, B.move_mol_atom
 
         class Chi(RealChi):
+            def __init__(self, *a, **k):
+                self._ctor = (a, k)
+                RealChi.__init__(self, *a, **k)
+
             def __call__(self, conf):
                 v = RealChi.__call__(self, conf)
-                mon.events.append(("chi2", np.array(conf, dtype=float).copy(), float(v), conf))
+                # "judged against the overlap measure of the configuration": the value the search sees must be the measure of
+                # this configuration, i.e. what a freshly built calculator (same fixed molecule and restraints) gives for it
+                fresh = float(RealChi(*self._ctor[0], **self._ctor[1])(np.array(conf, dtype=float).copy()))
+                mon.events.append(("chi2", np.array(conf, dtype=float).copy(), float(v), conf, fresh))
                 return v
 
         def acc(*a, **k):
@@ -577,6 +584,8 @@ def _judge(ev, out, case, bonds, mol2, mol2_in):
                 bad.append("move_mol_atom not called with the mobile molecule's bond table")
         elif e[0] == "chi2":
             last_prop = e
+            if len(e) > 4 and abs(e[2] - e[4]) > 1e-9 * max(1.0, abs(e[4])):
+                bad.append(f"the search was given {e[2]!r} as the measure of a configuration whose measure (fresh calculator) is {e[4]!r}")
         elif e[0] == "accept":
             n_iter += 1
             if since >= case["n_steps"]:
@@ -762,7 +771,7 @@ def _twin_cases(tier, seed):
     for sim in subsets:
         for ns in budgets:
             for sd in seeds:
-                for (n1, n2, restr) in ((4, 3, []), (3, 4, [(0, 1)]), (2, 2, [(0, 0), (1, 1)])):
+                for (n1, n2, restr) in ((4, 3, []), (3, 4, [(0, 1)]), (5, 4, [(1, 2)]), (2, 2, [(0, 0), (1, 1)])):
                     cases.append({"sim": list(sim), "n_steps": ns, "seed": 1000 * seed + sd, "geom_seed": 7 + sd + seed,
                                   "n1": n1, "n2": n2, "restr": [list(r) for r in restr]})
     return cases
